@@ -5,6 +5,7 @@ import (
 	"sync"
 
 	"github.com/ajitpratap0/GoSQLX/pkg/metrics"
+	"github.com/ajitpratap0/GoSQLX/pkg/sql/keywords"
 )
 
 // bufferPool is used to reuse bytes.Buffer instances during tokenization.
@@ -111,6 +112,14 @@ func GetTokenizer() *Tokenizer {
 func PutTokenizer(t *Tokenizer) {
 	if t != nil {
 		t.Reset()
+		// Reset keeps the dialect on purpose (Tokenize calls it). A pooled
+		// tokenizer, however, must not carry a previous holder's dialect to
+		// the next one: restore what New() installs.
+		if t.customKeywords {
+			t.keywords = keywords.NewKeywords()
+			t.dialect = keywords.DialectPostgreSQL
+			t.customKeywords = false
+		}
 		tokenizerPool.Put(t)
 
 		// Record pool return
